@@ -25,6 +25,13 @@ class Sec:
         self.line = None      # line of an anonymous block
 
 
+# directed histories (every tenth case): nested and top-level sections that are mostly cached and mostly carry a region of
+# their own, and more invalidations -- the combinations whose effect shows only in a backend with a store per region
+BIAS = {"cached": 0.6, "region": 0.2, "nest": 0.5, "invalidate": 0.12}
+PLAIN = dict(BIAS)
+DIRECTED = {"cached": 0.9, "region": 0.7, "nest": 0.9, "invalidate": 0.3}
+
+
 def gen_template(rng, ids, depth_max=3, allow_region=True):
     """returns (source, page Sec).  The body prints [id#tick@x: kids]."""
     counter = [0]
@@ -38,12 +45,12 @@ def gen_template(rng, ids, depth_max=3, allow_region=True):
         return "%s%d" % (prefix, counter[0])
 
     def mk_flags(rng, allow_key=True):
-        cached = rng.random() < 0.6
+        cached = rng.random() < BIAS["cached"]
         keyexpr = "${x}" if (cached and allow_key and rng.random() < 0.3) else None
         attrs = {}
         if cached and rng.random() < 0.3:
             attrs["cache_timeout"] = str(rng.choice([5, 60]))
-        if cached and allow_region and rng.random() < 0.2:
+        if cached and allow_region and rng.random() < BIAS["region"]:
             attrs["cache_region"] = rng.choice(["r1", "r2"])
         return cached, keyexpr, attrs
 
@@ -58,7 +65,7 @@ def gen_template(rng, ids, depth_max=3, allow_region=True):
 
     for _ in range(rng.randint(0, 3)):
         cached, keyexpr, attrs = mk_flags(rng)
-        kids = [gen_nested(1)] if rng.random() < 0.5 else []
+        kids = [gen_nested(1)] if rng.random() < BIAS["nest"] else []
         defs.append(Sec(new_id(), "def", fresh("d"), cached, keyexpr, kids, attrs, buffered=rng.random() < 0.3))
     body_items = []
     for d in defs:
@@ -122,7 +129,34 @@ def gen_template(rng, ids, depth_max=3, allow_region=True):
     lines.append("]")
     for d in defs:
         lines.append(def_text(d))
-    return "\n".join(lines) + "\n", page, pattrs
+    source = "\n".join(lines) + "\n"
+    name_anonymous_blocks(source, [it for it in body_items if it.kind == "anon"])
+    return source, page, pattrs
+
+
+def anon_name(s):
+    name = getattr(s, "anon_name", None)
+    return name if name is not None else "__M_anon_%d" % s.line
+
+
+def name_anonymous_blocks(source, sections):
+    """record on each anonymous section the function name mako's parser gives the block on its line"""
+    from mako.lexer import Lexer
+    from mako import parsetree
+    by_line = {}
+
+    def walk(nodes):
+        for n in nodes:
+            if isinstance(n, parsetree.BlockTag) and n.is_anonymous:
+                by_line.setdefault(n.lineno, n.funcname)
+            walk(getattr(n, "nodes", []) or [])
+    try:
+        walk(Lexer(source).parse().nodes)
+    except Exception:
+        return
+    for s in sections:
+        if s.kind == "anon" and s.line in by_line:
+            s.anon_name = by_line[s.line]
 
 
 def key_name(s):
@@ -134,7 +168,9 @@ def key_name(s):
     if s.kind == "block":
         return "render_" + s.name
     if s.kind == "anon":
-        return "__M_anon_%d" % s.line
+        # the internal name is whatever the parse tree gives the block that starts on this line (the generator
+        # writes one anonymous block per line)
+        return anon_name(s)
     return s.name
 
 
@@ -174,7 +210,8 @@ def run_case(rng, case_no, impl_name):
     be.reset()
     ids = [0]
     uris = rng.choice([["/t.html"], ["/a-b.html", "/a_b.html"], ["/x/p.html", "/x/q.html"], ["/a.b.html", "/a-b.html", "/c.html"]])
-    tmpl_args = rng.choice([{}, {"type": "memory"}, {"type": "memory", "timeout": 7}])
+    # (a timeout read from a configuration file arrives as a string: it must reach the backend as an int all the same)
+    tmpl_args = rng.choice([{}, {"type": "memory"}, {"type": "memory", "timeout": 7}, {"type": "memory", "timeout": "7"}])
     if impl_name == "beaker":
         tmpl_args = {"type": "memory"}
     lk = TemplateLookup(cache_impl=impl_name, cache_args=dict(tmpl_args))
@@ -206,11 +243,11 @@ def run_case(rng, case_no, impl_name):
                 out = "raised:" + type(e).__name__
             ops.append(("R", ti, x))
             results.append(out)
-        elif r < 0.68:
+        elif r < 0.68 - 0.5 * (BIAS["invalidate"] - 0.12):
             t.cache.invalidate_body()
             ops.append(("I", ti, "render_body", "render_body"))
             results.append("")
-        elif r < 0.80:
+        elif r < 0.80 + (BIAS["invalidate"] - 0.12):
             cands = [s for s in secs if s.kind in ("def", "nested", "block", "anon")]
             if not cands:
                 continue
@@ -230,7 +267,7 @@ def run_case(rng, case_no, impl_name):
                 t.cache.invalidate(key_name(s), __M_defname=key_name(s))
                 ops.append(("I", ti, key_name(s), key_name(s)))
             results.append("")
-        elif r < 0.90:
+        elif r < 0.90 + 0.5 * (BIAS["invalidate"] - 0.12):
             b = rng.random() < 0.5
             t.cache_enabled = b
             ops.append(("E", ti, 1 if b else 0))
@@ -278,6 +315,12 @@ def judge(ctx, case):
     for i, (op, res, (log, before, after)) in enumerate(zip(case["ops"], case["results"], case["logs"])):
         if op[0] == "I":
             invalidated.add((op[1], op[2]))
+            # no render is in progress: a context handed to the backend here can only be one kept from an earlier render
+            for kind, (cid, key), kw in log:
+                if kind == "inv" and "context" in kw:
+                    ctx.violation({"uris": case["uris"], "sources": [t[1] for t in case["tmpls"]], "ops": [list(o) for o in case["ops"][:i + 1]], "key": repr(key), "backend": case["impl"]},
+                                  "an invalidate handed the backend the rendering context of an earlier render", tags=["c17.context.stale"])
+                    return
         if op[0] == "P":
             invalidated.discard((op[1], op[2]))
         if op[0] != "R":
@@ -383,6 +426,7 @@ def run(ctx):
     kinds = {}
     for i in range(n):
         impl = ["verif", "verif", "verifregion", "verifctx", "beaker"][i % 5]
+        BIAS.update(DIRECTED if i % 10 in (2, 6) else PLAIN)
         with common.time_limit(30):
             case = run_case(rng, i, impl)
         cases.append(case)
